@@ -42,13 +42,14 @@ def gen_terms(rng, labs, quad, n=3, zero_ok=True):
 
 def gen(rng, i, tier):
     kind = rng.choice(ALL + ["PCBO", "PCBO", "PCBO", "PCSO"])
+    outer = G.DYADIC_ONLY          # C19's generator calls this one with the flag already set: hand it back unchanged
     if kind in ("PCSO", "PCBO"):
         # the constraint methods divide by 2 / multiply by 0.5 (floats): exact on dyadic coefficients only
         G.DYADIC_ONLY = True
     try:
         return gen_(rng, i, tier, kind)
     finally:
-        G.DYADIC_ONLY = False
+        G.DYADIC_ONLY = outer
 
 
 def gen_(rng, i, tier, kind):
